@@ -38,9 +38,10 @@ def run(ck):
     ck.trusted += ["harness/c08.py tolerance calibration and the classification of the three known large-omega2 failure regimes"]
     ck.theorems()
     rng = ck.rng
-    names = ["square", "honeycomb", "sq2w", "tria", "sc", "rect-polar2d"] + ([] if ck.quick else ["fcc", "bcc", "b2", "hcp", "re3", "rect", "tet", "polar", "diamond"])
+    # rect / ortho / tet / hcp have several inequivalent exchange (omega2) classes
+    names = ["rect", "square", "honeycomb", "ortho", "sq2w", "tria", "rect-polar2d", "sc"] + ([] if ck.quick else ["hcp", "fcc", "bcc", "b2", "re3", "tet", "polar", "diamond", "hcp-nonideal"])
     ncase = 0
-    for rep in range(ck.n(5, 15)):
+    for rep in range(ck.n(6, 17)):
         nm = names[rep % len(names)]
         crys, chem = gen.named(nm)
         net = gen.percolating_network(crys, chem, rng, maxshell=1, maxjumps=30)
@@ -49,6 +50,10 @@ def run(ck):
         d = vm.make(crys, chem, sl, jn, 1)
         multi = len(sl) > 1; polar = len(d.OSindices) > 0
         th = vm.random_thermo(d, rng, interact=True, site_energies=True)
+        # inequivalent exchange classes get rates spread over up to three decades
+        spread = np.array([10.0 ** rng.uniform(0, 1.5) for _ in th["preT2"]])
+        th["preT2"] = th["preT2"] * spread
+        smax = float(spread.max())   # effective exchange scale is f * smax: tolerances below use it
         res = {}
         for f in FS:
             t = {k: np.array(v, dtype=float) for k, v in th.items()}; t["preT2"] = t["preT2"] * f
@@ -76,7 +81,7 @@ def run(ck):
             sy = max(tcommon.sym_err(x) / max(np.abs(x).max(), scale) for x in L)
             if sy > 1e-8: ck.violation("default algorithm returns non-symmetric tensors (%.3g) at omega2 scale %g" % (sy, f), doc, key="c08-symmetric")
             if out.get("standard") is not None and out.get("large") is not None:
-                tol = 1e-14 * f + 1e-9
+                tol = 1e-14 * f * smax + 1e-9
                 ess = np.abs(out["standard"][1] - out["large"][1]).max() / scale
                 esv = max(np.abs(a - b).max() for a, b in zip(out["standard"][2:], out["large"][2:])) / scale
                 dd = dict(doc, standard=[x.tolist() for x in out["standard"]], large=[x.tolist() for x in out["large"]])
@@ -100,7 +105,7 @@ def run(ck):
                 if f < 1e3 or f not in res: continue
                 dlt = np.abs(res[f][1] - lim[1]).max()
                 # floor: the standard algorithm (used below the switch at ~1e8) carries eps*f error (measured 4e-16*f)
-                if dlt > 3 * A / f + (1e-9 + 1e-14 * min(f, 1e8)) * scale:
+                if dlt > 3 * A / f + (1e-9 + 1e-14 * min(f, 1e8) * smax) * scale:
                     key = K_MULTI if (multi and f > 1e6) else "c08-smooth-Lss"
                     ck.violation("Lss does not approach its large-rate limit smoothly: |Lss(f=%g) - limit| = %.3g > 3A/f = %.3g" % (f, dlt, 3 * A / f),
                                  {"crystal": nm, "cutoff": cut, "thermo": {k: np.asarray(v).tolist() for k, v in th.items()}, "f": f,
@@ -112,18 +117,18 @@ def run(ck):
             for f in FS:
                 if f < 1e3 or f not in res: continue
                 dlt = max(np.abs(a - b).max() for a, b in zip(res[f][2:], lim[2:]))
-                if dlt > 3 * A / min(f, fref) + 1e-5 * scale:   # floor: cancellation noise of the f=1e10 reference itself (~1e-16*f)
+                if dlt > 3 * A / min(f, fref) + 1e-5 * smax * scale:   # floor: cancellation noise of the f=1e10 reference itself (~1e-16*f)
                     if multi and f > 1e6: key = K_MULTI
                     elif polar and f > 1e6: key = K_OS
                     elif f >= 1e12: key = K_CANCEL
                     else: key = "c08-smooth-LsvL1vv"
-                    ck.violation("Lsv/L1vv do not approach their large-rate limit smoothly: deviation %.3g at f=%g (allowed %.3g)" % (dlt, f, 3 * A / min(f, fref) + 1e-5 * scale),
+                    ck.violation("Lsv/L1vv do not approach their large-rate limit smoothly: deviation %.3g at f=%g (allowed %.3g)" % (dlt, f, 3 * A / min(f, fref) + 1e-5 * smax * scale),
                                  {"crystal": nm, "cutoff": cut, "thermo": {k: np.asarray(v).tolist() for k, v in th.items()}, "f": f,
                                   "L_f": [x.tolist() for x in res[f]], "L_reference": [x.tolist() for x in lim]}, key=key)
         # (c) forced-large algorithm vs the exact torus chain (crystals outside the known failure regimes)
         M = vm.min_torus(d)
         if not multi and d.N * d.N * M ** crys.dim <= (700 if ck.quick else 2600):
-            for f in (1.0, 1e3):
+            for f in (1.0, 30.0):
                 t = {k: np.array(v, dtype=float) for k, v in th.items()}; t["preT2"] = t["preT2"] * f
                 args = d.preene2betafree(1.0, **t)
                 orig = d.Lij
